@@ -57,9 +57,15 @@ def first_diff_types(e, g):
     return None
 
 
-def mechanism(f, exp, got_default, got_noinfer):
-    """key for a case where the default-inference build disagrees with the infer_types=False build"""
+def mechanism(f, exp, got_default, got_noinfer, int_into_float=False):
+    """key for a case where the default-inference build disagrees with the infer_types=False build.
+    int_into_float: the in-compiler monitor saw a local of this function inferred as C double although integer-typed
+    values are assigned to it"""
     ec, gc = outcome_class(exp), outcome_class(got_default)
+    if int_into_float and got_noinfer == exp:
+        # whatever the visible symptom (an int result that became a float, a TypeError from `float & int`, a different
+        # quotient ...): integer values stored in that local turned into floats; agrees with CPython without inference
+        return 'int-value-of-float-inferred-local-becomes-float', {'symptom': '%s->%s' % (ec, gc)}
     nc = outcome_class(got_noinfer)
     base = 'noinfer-agrees-with-cpython' if got_noinfer == exp else 'noinfer-differs-too'
     if ec == 'ok' and gc == 'ok':
@@ -81,8 +87,8 @@ def mechanism(f, exp, got_default, got_noinfer):
 def main(ck):
     tree = cy.Tree('C40')
     rng = ck.rng('infer')
-    nfuncs = ck.pick(360, 1800)
-    per_mod = ck.pick(45, 120)
+    nfuncs = ck.pick(240, 1200)
+    per_mod = ck.pick(30, 100)
     ninputs = ck.pick(30, 30)
     mods = {}
     fmap = {}
@@ -99,7 +105,12 @@ def main(ck):
         jobs_d.append({'src': p, 'out': os.path.join(pd, f['name'] + '_d.c')})
         jobs_n.append({'src': p, 'out': os.path.join(pd, f['name'] + '_n.c'), 'directives': {'infer_types': False}})
     res_pd, _ = tree.translate(jobs_d, timeout=3600)
-    res_pn, _ = tree.translate(jobs_n, timeout=3600)
+    # (the infer_types=False translation is only needed for the functions the default configuration rejects)
+    failed_idx = [i for i, r in enumerate(res_pd) if not r['ok']]
+    res_fail, _ = tree.translate([jobs_n[i] for i in failed_idx], timeout=3600)
+    res_pn = [{'ok': True}] * len(res_pd)
+    for i, r in zip(failed_idx, res_fail):
+        res_pn[i] = r
     rejected_both = 0
     good = []
     for f, rd, rn in zip(allfuncs, res_pd, res_pn):
@@ -140,6 +151,7 @@ def main(ck):
                 ck.note('build failure %s/%s at %s: %s' % (cfg, n, inf['stage'], inf['errors'][-600:]))
             if cfg == 'default':
                 inferred += inf['plugin'].get('inferred', [])
+    int_into_float_funcs = {x[0].split('.')[-1] for x in inferred if len(x) > 4 and x[4]}
     irng = ck.rng('inputs')
     total_n = total_distinct = 0
     samples = []
@@ -181,7 +193,7 @@ def main(ck):
                 # compares default inference with inference disabled) -> counted, reported by C01-type checks
                 both_differ_same += 1
                 continue
-            key, info = mechanism(f, m['exp'], m['got'], got_n)
+            key, info = mechanism(f, m['exp'], m['got'], got_n, f['name'] in int_into_float_funcs)
             ck.discrepancy(key, '%s%s: CPython %s | default inference %s | infer_types=False %s' % (
                 f['name'], m['case']['a'], json.dumps(m['exp'])[:220], json.dumps(m['got'])[:220], json.dumps(got_n)[:120]),
                 {'function_source': infergen.HEADER + f['src'], 'ext': '.py', 'case': m['case'], 'compare': COMPARE,
@@ -232,6 +244,7 @@ def main(ck):
         samples,
         extra={'functions': nfuncs, 'functions_with_C_inferred_local': len(funcs_with_c),
                'fraction_functions_with_C_inferred_local': round(frac_funcs, 3), 'C_inferred_locals_by_type': bytype,
+               'functions_with_int_values_in_a_double_inferred_local': len(int_into_float_funcs),
                'reference_stats': stats, 'fraction_inputs_beyond_2_63': round(frac_big, 3),
                'cases_where_both_builds_deviate_identically_from_cpython': both_differ_same,
                'construct_functions': feat, 'outcome_hist': dict(sorted(hist.items(), key=lambda kv: -kv[1])[:20])},
